@@ -38,7 +38,7 @@ mod verif_c10_sizes {
         if n < 128 { assert!(first[0] as usize == n); } else { assert!(u16::from_be_bytes(first) as usize == (n | 0x8000)); }
         kani::cover!(true);
     }
-    //@defaults unit=U10.5 props=C10 tier=quick level=bounded bound="one concrete execution per listed length (concrete data)" timeout=900
+    //@defaults unit=U10.5 props=C10 tier=thorough level=bounded bound="one concrete execution per listed length (concrete data)" timeout=2400
     //@harness fns=PackedPointNumbers::compute_size,PackedPointNumbers::write_into,PackedPointRun::compute_size,PackedPointRun::write_into,PackedPointNumbers::iter_runs
     #[kani::proof]
     #[kani::unwind(132)]
